@@ -169,3 +169,40 @@ func (d *Dynamo) Peek(id string, created int64) *Item {
 	}
 	return nil
 }
+
+// Replace overwrites the attribute map of an existing item in place (in both the current and the eventually consistent view): the
+// way a harness damages a stored row.
+func (d *Dynamo) Replace(id string, created int64, attrs any) bool {
+	d.mu.Lock()
+	defer d.mu.Unlock()
+	k := key(id, created)
+	it, ok := d.now[k]
+	if !ok {
+		return false
+	}
+	it.Attrs = attrs
+	d.now[k] = it
+	if _, ok := d.prev[k]; ok {
+		d.prev[k] = it
+	}
+	return true
+}
+
+// Update overwrites the attribute map of an existing item the way a write by another client does: the eventually consistent view keeps
+// the state before this write until the next one (an operator flagging a key revoked).
+func (d *Dynamo) Update(id string, created int64, attrs any) bool {
+	d.mu.Lock()
+	defer d.mu.Unlock()
+	k := key(id, created)
+	it, ok := d.now[k]
+	if !ok {
+		return false
+	}
+	d.prev = map[string]Item{}
+	for kk, v := range d.now {
+		d.prev[kk] = v
+	}
+	it.Attrs = attrs
+	d.now[k] = it
+	return true
+}
